@@ -197,6 +197,7 @@ Not decided: that every mentioned name is declared or imported (program dependen
     shapes(m, ctx);
     dispatch_agreement(m, ctx, "C18.dispatch", "Typescript", "generate", "t.ty");
     comment_lines(m, ctx);
+    bit_string_shape(m, ctx);
     imports(m, ctx);
     values(m, ctx);
     categories(m, ctx, &ts);
@@ -313,6 +314,52 @@ fn comment_lines(m: &Model, ctx: &mut Ctx) {
             }
             Ok(o) => ctx.fail_closed("C18.comment", &format!("[{}]: {}", label, o.show())),
             Err(e) => ctx.fail_closed("C18.comment", &format!("[{}]: {}", label, e)),
+        }
+    }
+}
+
+/// C18.bits: the JER shape of a BIT STRING is a string when the type has a fixed size and `{ value, length }` otherwise
+/// (X.697 24). `is_fixed_size` decides; it is evaluated on constraint lists as the lexer builds them: `SIZE (8)` and a single
+/// value are fixed, no constraint, `SIZE (1..8)`, `SIZE (8, ...)` and two constraints are not.
+fn bit_string_shape(m: &Model, ctx: &mut Ctx) {
+    use crate::eval::{Env, Evaluator, Val};
+    use std::collections::BTreeMap as Map;
+    let Some(f) = m.fns.iter().find(|f| f.name == "is_fixed_size" && f.module.starts_with("generator::typescript")) else {
+        ctx.fail_closed("C18.bits", "anchor not found: typescript is_fixed_size");
+        return;
+    };
+    ctx.func(&f.key);
+    let consts = const_resolver(m);
+    let inl = inline_all(m, &["Constraint"]);
+    let ev = Evaluator { consts: &consts, call_hook: &crate::eval::no_hook, inline: Some(&inl) };
+    let named = |n: &str, fields: Vec<(&str, Val)>| Val::Ctor(n.to_string(), vec![], fields.into_iter().map(|(k, v)| (k.to_string(), v)).collect::<Map<_, _>>());
+    let element = |e: Val| Val::Ctor("Element".into(), vec![e], Map::new());
+    let single = |ext: bool| named("SingleValue", vec![("value", Val::Ctor("Integer".into(), vec![Val::int(8)], Map::new())), ("extensible", Val::Bool(ext))]);
+    let range = named("ValueRange", vec![("min", Val::some(Val::Ctor("Integer".into(), vec![Val::int(1)], Map::new()))), ("max", Val::some(Val::Ctor("Integer".into(), vec![Val::int(8)], Map::new()))), ("extensible", Val::Bool(false))]);
+    let subtype = |set: Val, ext: bool| Val::Ctor("Subtype".into(), vec![named("ElementSetSpecs", vec![("set", set), ("extensible", Val::Bool(ext))])], Map::new());
+    let size = |inner: Val| element(Val::Ctor("SizeConstraint".into(), vec![element(inner)], Map::new()));
+    let p = f.sig.inputs.iter().filter_map(|a| match a { syn::FnArg::Typed(t) => Some(tok(&t.pat)), _ => None }).next().unwrap_or("bit_str".into());
+    for (what, constraints, want) in [
+        ("BIT STRING", vec![], false),
+        ("BIT STRING (SIZE (8))", vec![subtype(size(single(false)), false)], true),
+        ("BIT STRING (SIZE (1..8))", vec![subtype(size(range.clone()), false)], false),
+        ("BIT STRING (SIZE (8, ...))", vec![subtype(size(single(true)), false)], false),
+        ("BIT STRING (SIZE (8), ...)", vec![subtype(size(single(false)), true)], false),
+        ("BIT STRING ('1010'B)", vec![subtype(element(single(false)), false)], true),
+        ("BIT STRING (SIZE (8)) (SIZE (1..8))", vec![subtype(size(single(false)), false), subtype(size(range.clone()), false)], false),
+    ] {
+        ctx.oblige("C18.bits", what, true);
+        let mut env = Env::new();
+        env.insert(p.clone(), named("BitString", vec![("constraints", Val::List(constraints)), ("distinguished_values", Val::none())]));
+        match ev.eval_fn_body(&f.block, &mut env) {
+            Ok(Val::Bool(got)) => {
+                if got != want {
+                    ctx.violate("C18.bits", &format!("fixed-size:{}", if want { "not-recognised" } else { "wrongly-assumed" }), &f.file, f.line,
+                        &format!("is_fixed_size for `{}` is {}: a BIT STRING of fixed size is a JSON string in JER, any other an object `{{ value, length }}`; expected {}", what, got, want));
+                }
+            }
+            Ok(o) => ctx.fail_closed("C18.bits", &format!("[{}]: {}", what, o.show())),
+            Err(e) => ctx.fail_closed("C18.bits", &format!("[{}]: {}", what, e)),
         }
     }
 }
